@@ -143,6 +143,7 @@ func cmdCheck(args []string) int {
 	noReplay := fs.Bool("no-replay", false, "skip native replay (development)")
 	budgetOverride := fs.Duration("budget", 0, "override exploration budget")
 	filter := fs.String("filter", "", "only jobs whose id contains this (development)")
+	noXcheck := fs.Bool("no-xcheck", false, "skip re-deciding sampled queries with z3 5.x and cvc5")
 	maxJobs := fs.Int("max-jobs", 0, "only the first N jobs (development)")
 	listVio := fs.Bool("list-violations", false, "print every job with a violated label (development)")
 	var id string
@@ -273,6 +274,12 @@ func cmdCheck(args []string) int {
 		fmt.Printf("VIOLATION property=%s replay=%s label=%q\n", id, rp.replayPath, k)
 	}
 	ev.fill(p, r, results, byLabel, order, loadT, exploreT, replayT, nKnown, nNew, nMismatch)
+	if !*noXcheck {
+		tx := time.Now()
+		xc := crossCheck(id, r.XSamples)
+		xc["wall_s"] = time.Since(tx).Seconds()
+		ev.Coverage["solver_crosscheck"] = xc
+	}
 	ev.write(time.Since(start))
 	summary(id, *tier, results, r, time.Since(start), nKnown, nNew, nMismatch)
 	return exit
